@@ -341,29 +341,25 @@ impl Protocol for V4 {
     }
 
     fn write(&self, packet: Packet, buffer: &mut BytesMut) -> Result<usize, Error> {
+        // MQTT 3.1.1 has no properties: a packet that carries some (e.g. a publish forwarded from a
+        // v5 publisher, a will with properties) is written without them
         let size = match packet {
-            Packet::Connect(connect, None, last_will, None, login) => {
+            Packet::Connect(connect, _, last_will, _, login) => {
                 connect::write(&connect, &login, &last_will, buffer)?
             }
-            // TODO: set ConnAckProperties conditionally based on version
-            // currently we can't conditionally set them based on v5 or v4,
-            // so we ignore them, as properties can't be there in v4.
             Packet::ConnAck(connack, _) => connack::write(&connack, buffer)?,
-            Packet::Publish(publish, None) => publish::write(&publish, buffer)?,
-            Packet::PubAck(puback, None) => puback::write(&puback, buffer)?,
-            Packet::Subscribe(subscribe, None) => subscribe::write(&subscribe, buffer)?,
-            Packet::SubAck(suback, None) => suback::write(&suback, buffer)?,
-            Packet::PubRec(pubrec, None) => pubrec::write(&pubrec, buffer)?,
-            Packet::PubRel(pubrel, None) => pubrel::write(&pubrel, buffer)?,
-            Packet::PubComp(pubcomp, None) => pubcomp::write(&pubcomp, buffer)?,
-            Packet::Unsubscribe(unsubscribe, None) => unsubscribe::write(&unsubscribe, buffer)?,
-            Packet::UnsubAck(unsuback, None) => unsuback::write(&unsuback, buffer)?,
-            Packet::Disconnect(disconnect, None) => disconnect::write(&disconnect, buffer)?,
+            Packet::Publish(publish, _) => publish::write(&publish, buffer)?,
+            Packet::PubAck(puback, _) => puback::write(&puback, buffer)?,
+            Packet::Subscribe(subscribe, _) => subscribe::write(&subscribe, buffer)?,
+            Packet::SubAck(suback, _) => suback::write(&suback, buffer)?,
+            Packet::PubRec(pubrec, _) => pubrec::write(&pubrec, buffer)?,
+            Packet::PubRel(pubrel, _) => pubrel::write(&pubrel, buffer)?,
+            Packet::PubComp(pubcomp, _) => pubcomp::write(&pubcomp, buffer)?,
+            Packet::Unsubscribe(unsubscribe, _) => unsubscribe::write(&unsubscribe, buffer)?,
+            Packet::UnsubAck(unsuback, _) => unsuback::write(&unsuback, buffer)?,
+            Packet::Disconnect(disconnect, _) => disconnect::write(&disconnect, buffer)?,
             Packet::PingReq(pingreq) => ping::pingreq::write(buffer)?,
             Packet::PingResp(pingresp) => ping::pingresp::write(buffer)?,
-            _ => unreachable!(
-                "This branch only matches for packets with Properties, which is not possible in v4",
-            ),
         };
         Ok(size)
     }
